@@ -167,6 +167,9 @@ func split(b []byte, cuts ...int) [][]byte {
 func randomSeg(r *lib.Rand, b []byte) [][]byte {
 	var out [][]byte
 	maxc := int(r.Pick64([]int64{1, 2, 3, 5, 16, 64, 5000}))
+	if len(b) > 2000 && maxc < 64 {
+		maxc = 64 * maxc // keep the number of chunks of large streams moderate
+	}
 	for i := 0; i < len(b); {
 		if r.Chance(5) {
 			out = append(out, []byte{})
